@@ -25,6 +25,21 @@ for l in st:
     elif path == "DESIGN.md":
         os.makedirs("/verif/.work", exist_ok=True)
         open("/verif/.work/design_%s.diff" % name, "w").write(sh("git -C %s diff DESIGN.md" % V)); print("saved DESIGN diff")
+    elif path == "harness/src/main.rs":
+        # additive merge: new `mod x;` lines and new dispatch arms only
+        d = sh("git -C %s diff -- %s" % (V, path)).split("\n")
+        cur = open(dst).read().split("\n")
+        have = set(x.strip() for x in cur)
+        for x in d:
+            if not x.startswith("+") or x.startswith("+++"): continue
+            k = x[1:].strip()
+            if not k or k in have: continue
+            if k.startswith("mod ") and k.endswith(";"):
+                i = max(i for i, y in enumerate(cur) if y.strip().startswith("mod ")); cur.insert(i + 1, k); have.add(k); print("main.rs +", k)
+            elif k.startswith('"') and "=>" in k:
+                i = [i for i, y in enumerate(cur) if y.strip().startswith("_ =>")][0]; cur.insert(i, "        " + k); have.add(k); print("main.rs +", k)
+            else: print("main.rs: UNMERGED line:", k)
+        open(dst, "w").write("\n".join(cur))
     else:
         d = sh("git -C %s diff -- %s" % (V, path))
         p = subprocess.run("patch -p1 --no-backup-if-mismatch -F3", shell=True, input=d.encode(), cwd="/verif", stdout=subprocess.PIPE, stderr=subprocess.STDOUT)
